@@ -21,22 +21,23 @@ func properties() []Property {
 	return []Property{
 		{ID: "C01", Assumptions: []string{aSummaries, aModels, aE1, aE2, "receiver strings: both spellings of the orbiter address, a mixed-case spelling, other accounts, the blocked dust collector, empty, malformed, and an arbitrary 48-byte string; an arbitrary string other than a spelling of a known account is treated as undecodable", "'all prior histories' = arbitrary prior balances of the orbiter account, arbitrary escrow balance, arbitrary pause / parameter configuration (one inductive step)"},
 			Harnesses: []HarnessSpec{
-				{Name: "H_C01_receivers", Profile: "bit", Quick: b("rcvKinds", 9, "denomKinds", 5, "memoKinds", 2, "amountKinds", 3, "intKinds", 1, "fees", 0, "priors", 1, "pauses", 0, "ptMax", 0, "feeRcpKinds", 1, "faults", 0, "earlier", 0, "hypVariants", 0), Covers: []string{"error-ack", "success-ack", "success-ack-to-orbiter", "success-ack-to-someone-else"}},
-				{Name: "H_C01_payloads", Profile: "bit", Quick: b("rcvKinds", 2, "denomKinds", 1, "memoKinds", 6, "amountKinds", 1, "intKinds", 5, "fees", 1, "priors", 1, "pauses", 0, "ptMax", 0, "feeRcpKinds", 3, "faults", 0, "earlier", 0, "hypVariants", 1), Thorough: b("rcvKinds", 2, "denomKinds", 1, "memoKinds", 6, "amountKinds", 1, "intKinds", 5, "fees", 1, "priors", 1, "pauses", 1, "ptMax", 1, "feeRcpKinds", 3, "faults", 0, "earlier", 0, "hypVariants", 1), Covers: []string{"error-ack", "success-ack", "success-ack-to-orbiter"}},
-				{Name: "H_C01_faults", Profile: "bit", Quick: b("rcvKinds", 2, "denomKinds", 1, "memoKinds", 1, "amountKinds", 1, "intKinds", 2, "fees", 1, "priors", 1, "pauses", 0, "ptMax", 0, "feeRcpKinds", 2, "faults", 1, "earlier", 0, "hypVariants", 0), Covers: []string{"error-ack", "success-ack", "success-ack-to-orbiter"}},
+				{Name: "H_C01_receivers", Profile: "bit", Quick: b("rcvKinds", 9, "denomKinds", 2, "memoKinds", 2, "amountKinds", 3, "intKinds", 1, "fees", 0, "priors", 1, "pauses", 0, "ptMax", 0, "feeRcpKinds", 1, "faults", 0, "earlier", 0, "hypVariants", 0, "amountSpellings", 0), Covers: []string{"error-ack", "success-ack", "success-ack-to-orbiter", "success-ack-to-someone-else"}},
+				{Name: "H_C01_denoms", Profile: "bit", Quick: b("rcvKinds", 2, "denomKinds", 5, "memoKinds", 2, "amountKinds", 3, "intKinds", 1, "fees", 0, "priors", 1, "pauses", 0, "ptMax", 0, "feeRcpKinds", 1, "faults", 0, "earlier", 0, "hypVariants", 0, "amountSpellings", 1), Covers: []string{"error-ack", "success-ack", "success-ack-to-orbiter"}},
+				{Name: "H_C01_payloads", Profile: "bit", Quick: b("rcvKinds", 2, "denomKinds", 1, "memoKinds", 6, "amountKinds", 1, "intKinds", 6, "fees", 1, "priors", 1, "pauses", 0, "ptMax", 0, "feeRcpKinds", 3, "faults", 0, "earlier", 0, "hypVariants", 1, "amountSpellings", 0), Thorough: b("rcvKinds", 2, "denomKinds", 1, "memoKinds", 6, "amountKinds", 1, "intKinds", 6, "fees", 1, "priors", 1, "pauses", 1, "ptMax", 1, "feeRcpKinds", 3, "faults", 0, "earlier", 0, "hypVariants", 1, "amountSpellings", 0), Covers: []string{"error-ack", "success-ack", "success-ack-to-orbiter"}},
+				{Name: "H_C01_faults", Profile: "bit", Quick: b("rcvKinds", 2, "denomKinds", 1, "memoKinds", 1, "amountKinds", 1, "intKinds", 2, "fees", 1, "priors", 1, "pauses", 0, "ptMax", 0, "feeRcpKinds", 2, "faults", 1, "earlier", 0, "hypVariants", 0, "amountSpellings", 0), Covers: []string{"error-ack", "success-ack", "success-ack-to-orbiter"}},
 				{Name: "H_C01_encodings", Profile: "bit", Covers: []string{"refused", "success", "orbiter-transfer-executed"}},
-				{Name: "H_C01_sequence", Profile: "bit", Quick: b("rcvKinds", 2, "denomKinds", 1, "memoKinds", 2, "amountKinds", 1, "intKinds", 2, "fees", 1, "priors", 1, "pauses", 0, "ptMax", 0, "feeRcpKinds", 1, "faults", 0, "earlier", 1, "hypVariants", 0), Covers: []string{"error-ack", "success-ack-to-orbiter", "after-an-earlier-transfer"}},
+				{Name: "H_C01_sequence", Profile: "bit", Quick: b("rcvKinds", 2, "denomKinds", 1, "memoKinds", 2, "amountKinds", 1, "intKinds", 2, "fees", 1, "priors", 1, "pauses", 0, "ptMax", 0, "feeRcpKinds", 1, "faults", 0, "earlier", 1, "hypVariants", 0, "amountSpellings", 0), Covers: []string{"error-ack", "success-ack-to-orbiter", "after-an-earlier-transfer"}},
 			}},
 		{ID: "C02", Assumptions: []string{aSummaries, aModels, aE1, aE5, "ledger = ten tracked accounts (orbiter, dust collector, users, fee recipients, escrow, CCTP / warp / transfer module accounts) x four denoms; 'interleavings with other transfers' are sequential histories, covered by starting from an arbitrary ledger"},
 			Harnesses: []HarnessSpec{
-				{Name: "H_C02_conservation", Profile: "bit", Quick: b("rcvKinds", 2, "denomKinds", 1, "memoKinds", 1, "amountKinds", 1, "intKinds", 2, "fees", 2, "priors", 1, "pauses", 0, "ptMax", 0, "feeRcpKinds", 1, "faults", 0, "earlier", 0, "hypVariants", 1), Thorough: b("rcvKinds", 2, "denomKinds", 1, "memoKinds", 1, "amountKinds", 1, "intKinds", 2, "fees", 3, "priors", 1, "pauses", 0, "ptMax", 0, "feeRcpKinds", 1, "faults", 0, "earlier", 0, "hypVariants", 0), Covers: []string{"successful-orbiter-transfer", "not-a-successful-orbiter-transfer"}},
-				{Name: "H_C02_faults", Profile: "bit", Quick: b("rcvKinds", 1, "denomKinds", 1, "memoKinds", 1, "amountKinds", 1, "intKinds", 1, "fees", 1, "priors", 1, "pauses", 0, "ptMax", 0, "feeRcpKinds", 1, "faults", 1, "earlier", 0, "hypVariants", 0), Covers: []string{"successful-orbiter-transfer", "not-a-successful-orbiter-transfer"}},
-				{Name: "H_C02_sequence", Profile: "bit", Quick: b("rcvKinds", 1, "denomKinds", 1, "memoKinds", 1, "amountKinds", 1, "intKinds", 2, "fees", 1, "priors", 1, "pauses", 0, "ptMax", 0, "feeRcpKinds", 1, "faults", 0, "earlier", 1, "hypVariants", 0), Covers: []string{"successful-orbiter-transfer", "after-an-earlier-transfer"}},
+				{Name: "H_C02_conservation", Profile: "bit", Quick: b("rcvKinds", 2, "denomKinds", 1, "memoKinds", 1, "amountKinds", 1, "intKinds", 2, "fees", 2, "priors", 1, "pauses", 0, "ptMax", 0, "feeRcpKinds", 1, "faults", 0, "earlier", 0, "hypVariants", 1, "amountSpellings", 0), Thorough: b("rcvKinds", 2, "denomKinds", 1, "memoKinds", 1, "amountKinds", 1, "intKinds", 2, "fees", 3, "priors", 1, "pauses", 0, "ptMax", 0, "feeRcpKinds", 1, "faults", 0, "earlier", 0, "hypVariants", 0, "amountSpellings", 0), Covers: []string{"successful-orbiter-transfer", "not-a-successful-orbiter-transfer"}},
+				{Name: "H_C02_faults", Profile: "bit", Quick: b("rcvKinds", 1, "denomKinds", 1, "memoKinds", 1, "amountKinds", 1, "intKinds", 1, "fees", 1, "priors", 1, "pauses", 0, "ptMax", 0, "feeRcpKinds", 1, "faults", 1, "earlier", 0, "hypVariants", 0, "amountSpellings", 0), Covers: []string{"successful-orbiter-transfer", "not-a-successful-orbiter-transfer"}},
+				{Name: "H_C02_sequence", Profile: "bit", Quick: b("rcvKinds", 1, "denomKinds", 1, "memoKinds", 1, "amountKinds", 1, "intKinds", 2, "fees", 1, "priors", 1, "pauses", 0, "ptMax", 0, "feeRcpKinds", 1, "faults", 0, "earlier", 1, "hypVariants", 0, "amountSpellings", 0), Covers: []string{"successful-orbiter-transfer", "after-an-earlier-transfer"}},
 			}},
 		{ID: "C03", Assumptions: []string{aSummaries, aModels, aE1, "every fallible environment call (each bank send, the sweep, the ICS-20 application, the token query, each bridge request, each event emission) draws an independent failure bit, so all subsets of failures are covered; naturally occurring failures are the same bits of the respective model", "statistics failures are the documented exception (collections writes do not fail in the model)"},
 			Harnesses: []HarnessSpec{
-				{Name: "H_C03_faults", Profile: "bit", Quick: b("rcvKinds", 1, "denomKinds", 1, "memoKinds", 1, "amountKinds", 1, "intKinds", 2, "fees", 1, "priors", 1, "pauses", 0, "ptMax", 0, "feeRcpKinds", 2, "faults", 0, "earlier", 0, "hypVariants", 0), Thorough: b("rcvKinds", 2, "denomKinds", 1, "memoKinds", 1, "amountKinds", 1, "intKinds", 2, "fees", 2, "priors", 1, "pauses", 0, "ptMax", 0, "feeRcpKinds", 2, "faults", 0, "earlier", 0, "hypVariants", 0), Covers: []string{"some-step-failed", "error-ack", "success-ack", "success-ack-to-orbiter"}},
-				{Name: "H_C03_panics", Profile: "bit", Quick: b("rcvKinds", 1, "denomKinds", 1, "memoKinds", 1, "amountKinds", 1, "intKinds", 2, "fees", 1, "priors", 1, "pauses", 0, "ptMax", 0, "feeRcpKinds", 1, "faults", 0, "earlier", 0, "hypVariants", 0), Covers: []string{"receive-aborted", "success-ack"}},
+				{Name: "H_C03_faults", Profile: "bit", Quick: b("rcvKinds", 1, "denomKinds", 1, "memoKinds", 1, "amountKinds", 1, "intKinds", 2, "fees", 1, "priors", 1, "pauses", 0, "ptMax", 0, "feeRcpKinds", 2, "faults", 0, "earlier", 0, "hypVariants", 0, "amountSpellings", 0), Thorough: b("rcvKinds", 2, "denomKinds", 1, "memoKinds", 1, "amountKinds", 1, "intKinds", 2, "fees", 2, "priors", 1, "pauses", 0, "ptMax", 0, "feeRcpKinds", 2, "faults", 0, "earlier", 0, "hypVariants", 0, "amountSpellings", 0), Covers: []string{"some-step-failed", "error-ack", "success-ack", "success-ack-to-orbiter"}},
+				{Name: "H_C03_panics", Profile: "bit", Quick: b("rcvKinds", 1, "denomKinds", 1, "memoKinds", 1, "amountKinds", 1, "intKinds", 2, "fees", 1, "priors", 1, "pauses", 0, "ptMax", 0, "feeRcpKinds", 1, "faults", 0, "earlier", 0, "hypVariants", 0, "amountSpellings", 0), Covers: []string{"receive-aborted", "success-ack"}},
 			}},
 		{ID: "C05", Assumptions: []string{aSummaries, aModels, "the transfer attributes are those after arbitrary pre-actions: source amount A, destination amount D with 0 < D <= A (both symbolic), orbiter balance exactly D", "byte fields are arbitrary byte slices of 0..bytes bytes (bytes = 33 = one past the only length Hyperlane accepts); hook metadata from {empty, 0x, valid hex, bad hex, no prefix, odd length}", "of depinject.go, ProvideModule (authority resolution, keeper construction) is executed by H_C10_configured; InjectComponents (wiring of the real CCTP / warp / bank keepers) is outside the claim (the harness mirrors it with the exported constructors and environment models)"},
 			Harnesses: []HarnessSpec{
@@ -54,16 +55,16 @@ func properties() []Property {
 			}},
 		{ID: "C07", Assumptions: []string{aSummaries, aModels, aE2, "events/state of the wrapped application itself are identical because it is the same single call with the same arguments on the same context (the application's internals are a model)", "acknowledgement, timeout, channel-close/open-confirm, SendPacket and GetAppVersion are driven on the middleware value with recording wrapped objects (H_C07_callbacks); the remaining channel handshake and upgrade callbacks are promoted from the same embedded interfaces and are not driven"},
 			Harnesses: []HarnessSpec{
-				{Name: "H_C07_packets", Profile: "bit", Quick: b("rcvKinds", 9, "denomKinds", 4, "memoKinds", 2, "amountKinds", 3, "intKinds", 1, "fees", 0, "priors", 1, "pauses", 0, "ptMax", 0, "garbage", 1, "feeRcpKinds", 1, "faults", 0, "earlier", 0, "hypVariants", 0), Covers: []string{"not-for-orbiter"}},
+				{Name: "H_C07_packets", Profile: "bit", Quick: b("rcvKinds", 9, "denomKinds", 4, "memoKinds", 2, "amountKinds", 3, "intKinds", 1, "fees", 0, "priors", 1, "pauses", 0, "ptMax", 0, "garbage", 1, "feeRcpKinds", 1, "faults", 0, "earlier", 0, "hypVariants", 0, "amountSpellings", 0), Covers: []string{"not-for-orbiter"}},
 				{Name: "H_C07_channels", Profile: "bit", Covers: []string{"not-for-orbiter"}},
 				{Name: "H_C07_callbacks", Profile: "bit", Covers: []string{"callback-called"}},
 				{Name: "H_C07_sequence", Profile: "bit", Covers: []string{"not-for-orbiter", "after-an-orbiter-transfer"}},
-				{Name: "H_C07_payloads", Profile: "bit", Quick: b("rcvKinds", 4, "denomKinds", 1, "memoKinds", 6, "amountKinds", 1, "intKinds", 2, "fees", 1, "priors", 1, "pauses", 1, "ptMax", 1, "garbage", 0, "feeRcpKinds", 1, "faults", 0, "earlier", 0, "hypVariants", 0), Covers: []string{"not-for-orbiter"}},
+				{Name: "H_C07_payloads", Profile: "bit", Quick: b("rcvKinds", 4, "denomKinds", 1, "memoKinds", 6, "amountKinds", 1, "intKinds", 2, "fees", 1, "priors", 1, "pauses", 1, "ptMax", 1, "garbage", 0, "feeRcpKinds", 1, "faults", 0, "earlier", 0, "hypVariants", 0, "amountSpellings", 0), Covers: []string{"not-for-orbiter"}},
 			}},
 		{ID: "C11", Assumptions: []string{aSummaries, aModels, aE1, "paired executions: the same drawn packet on two freshly wired modules whose states differ only in the coins already on the orbiter account (arbitrary amounts in the transferred denom and one other denom vs. none)", "bank send restrictions of other modules on the sweep are outside the claim"},
 			Harnesses: []HarnessSpec{
-				{Name: "H_C11_priors", Profile: "bit", Quick: b("rcvKinds", 2, "denomKinds", 1, "memoKinds", 1, "amountKinds", 1, "intKinds", 2, "fees", 1, "priors", 1, "pauses", 0, "ptMax", 1, "feeRcpKinds", 1, "faults", 0, "earlier", 0, "hypVariants", 0), Thorough: b("rcvKinds", 2, "denomKinds", 2, "memoKinds", 1, "amountKinds", 1, "intKinds", 2, "fees", 2, "priors", 1, "pauses", 0, "ptMax", 1, "feeRcpKinds", 1, "faults", 0, "earlier", 0, "hypVariants", 0), Covers: []string{"both-succeed", "both-refused"}},
-				{Name: "H_C11_sequence", Profile: "bit", Quick: b("rcvKinds", 1, "denomKinds", 1, "memoKinds", 1, "amountKinds", 1, "intKinds", 2, "fees", 1, "priors", 1, "pauses", 0, "ptMax", 0, "feeRcpKinds", 1, "faults", 0, "earlier", 1, "hypVariants", 0), Covers: []string{"both-succeed", "after-an-earlier-transfer"}},
+				{Name: "H_C11_priors", Profile: "bit", Quick: b("rcvKinds", 2, "denomKinds", 1, "memoKinds", 1, "amountKinds", 1, "intKinds", 2, "fees", 1, "priors", 1, "pauses", 0, "ptMax", 1, "feeRcpKinds", 1, "faults", 0, "earlier", 0, "hypVariants", 0, "amountSpellings", 0), Thorough: b("rcvKinds", 2, "denomKinds", 2, "memoKinds", 1, "amountKinds", 1, "intKinds", 2, "fees", 2, "priors", 1, "pauses", 0, "ptMax", 1, "feeRcpKinds", 1, "faults", 0, "earlier", 0, "hypVariants", 0, "amountSpellings", 0), Covers: []string{"both-succeed", "both-refused"}},
+				{Name: "H_C11_sequence", Profile: "bit", Quick: b("rcvKinds", 1, "denomKinds", 1, "memoKinds", 1, "amountKinds", 1, "intKinds", 2, "fees", 1, "priors", 1, "pauses", 0, "ptMax", 0, "feeRcpKinds", 1, "faults", 0, "earlier", 1, "hypVariants", 0, "amountSpellings", 0), Covers: []string{"both-succeed", "after-an-earlier-transfer"}},
 			}},
 		{ID: "C04", Assumptions: []string{aSummaries, aModels, "math.NewIntFromString on a concrete string is computed with math/big (SetString base 0, 256-bit limit) exactly as cosmossdk.io/math does; fixed fee amounts are the decimal rendering of an arbitrary symbolic Int or one of a few non-numbers", "fee recipients are concrete strings (two valid accounts, possibly repeated, and malformed ones): bech32 decoding itself is the SDK's"},
 			Harnesses: []HarnessSpec{
@@ -117,7 +118,7 @@ func properties() []Property {
 			Harnesses: []HarnessSpec{
 				{Name: "H_C16_denom", Profile: "bit", Quick: b("segments", 5, "seglen", 1), Thorough: b("segments", 7, "seglen", 1), Covers: []string{"accepted", "refused", "refused-not-returning"}, TimeoutThorough: 2400},
 				{Name: "H_C16_ports", Profile: "bit", Covers: []string{"accepted", "refused"}},
-				{Name: "H_C16_credit", Profile: "bit", Quick: b("rcvKinds", 2, "denomKinds", 4, "memoKinds", 1, "amountKinds", 1, "intKinds", 1, "fees", 1, "priors", 1, "pauses", 0, "ptMax", 0, "feeRcpKinds", 1, "faults", 0, "earlier", 0, "hypVariants", 1), Covers: []string{"accepted", "not-accepted"}},
+				{Name: "H_C16_credit", Profile: "bit", Quick: b("rcvKinds", 2, "denomKinds", 4, "memoKinds", 1, "amountKinds", 1, "intKinds", 1, "fees", 1, "priors", 1, "pauses", 0, "ptMax", 0, "feeRcpKinds", 2, "faults", 0, "earlier", 0, "hypVariants", 1, "amountSpellings", 1), Covers: []string{"accepted", "not-accepted"}},
 			}},
 		{ID: "C17", Assumptions: []string{aSummaries, aModels, aE3, "the collections summary includes the key codec's refusal of 0x00 in non-terminal string key components", "genesis lists of at most list / entries elements, counterparty strings of at most strlen bytes, protocol / action ids any int32; JSON (un)marshalling of the genesis document and module.go glue are outside the claim"},
 			Harnesses: []HarnessSpec{
@@ -127,6 +128,7 @@ func properties() []Property {
 				{Name: "H_C17_roundtrip", Profile: "bit", Quick: b("steps", 2, "strlen", 1), Thorough: b("steps", 2, "strlen", 2), Covers: []string{"re-initialised"}, TimeoutQuick: 300},
 				{Name: "H_C17_dispatcher", Profile: "bit", Quick: b("entries", 1, "strlen", 1, "denomlen", 3), Thorough: b("entries", 1, "strlen", 2, "denomlen", 4), TimeoutQuick: 300, Covers: []string{"genesis-rejected", "genesis-accepted", "genesis-initialised"}},
 				{Name: "H_C17_boundary", Profile: "bit", Covers: []string{"genesis-rejected", "genesis-accepted"}},
+				{Name: "H_C17_many", Profile: "bit", Covers: []string{"exported"}},
 			}},
 		{ID: "C18", Assumptions: []string{aSummaries, aModels, aE1, "the passthrough payload is an all-zero byte slice whose LENGTH is symbolic in [0, maxlen] (the hook reads only len)"},
 			Harnesses: []HarnessSpec{
